@@ -1,4 +1,5 @@
 import NA.Proofs.C18
+import NA.Proofs.C18Conf
 /-!
 # C18 — raw and IPv6 parts are merged completely and in the documented order
 
@@ -22,61 +23,12 @@ namespace NA.C18
 
 /-! ## ASA -/
 
-/-- The two shapes of `asaSplit`: nothing is moved, or the last non-APPEND line of `b` is
-`deny ip any6 any6` and goes behind the lines of `a`. -/
-theorem asaSplit_cases (a b : List Entry) :
-    asaSplit a b = (nonApp b, a) ∨
-    ∃ init x, x.isAny6 = true ∧ nonApp b = init ++ [x] ∧ asaSplit a b = (init, a ++ [x]) := by
-  unfold asaSplit
-  simp only
-  split
-  · rename_i x hx
-    split
-    · rename_i h6
-      right
-      obtain ⟨ys, hys⟩ := List.getLast?_eq_some_iff.mp hx
-      exact ⟨ys, x, h6, hys, by rw [hys]; simp⟩
-    · left; rfl
-  · left; rfl
-
-theorem asaSplit_fst (a b : List Entry) :
-    (asaSplit a b).1 = nonApp b ∨
-    ∃ x, x.isAny6 = true ∧ nonApp b = (asaSplit a b).1 ++ [x] ∧ (asaSplit a b).2 = a ++ [x] := by
-  rcases asaSplit_cases a b with h | ⟨init, x, hx, hp, h⟩
-  · left; rw [h]
-  · right; exact ⟨x, hx, by rw [h]; exact hp, by rw [h]⟩
-
-theorem asaSplit_snd (a b : List Entry) :
-    (asaSplit a b).2 = a ∨ ∃ x, x.isAny6 = true ∧ (asaSplit a b).2 = a ++ [x] := by
-  rcases asaSplit_cases a b with h | ⟨init, x, hx, _, h⟩
-  · left; rw [h]
-  · right; exact ⟨x, hx, by rw [h]⟩
-
-/-- `(top lines) ++ (Netspoc lines incl. a moved any6 line)` is a permutation of `nonApp b ++ a`. -/
-theorem asaSplit_perm (a b : List Entry) :
-    ((asaSplit a b).1 ++ (asaSplit a b).2).Perm (nonApp b ++ a) := by
-  rcases asaSplit_cases a b with h | ⟨init, x, _, hp, h⟩
-  · rw [h]
-  · rw [h, hp]
-    simp only [List.append_assoc]
-    refine List.Perm.append_left _ ?_
-    exact List.perm_append_comm
-
 /-- The placement law of the ASA merge; everything else follows from it. -/
 theorem asa_append_after_last_permit_before_trailing_deny (a b : List Entry) :
     Placed Entry.notPermit (asaSplit a b).1 (asaSplit a b).2 (appPart b) (mergeASA a b) :=
   placed_insert _ _ _ _
 
-theorem asa_merge_perm (a b : List Entry) : (mergeASA a b).Perm (a ++ b) := by
-  have h := (asa_append_after_last_permit_before_trailing_deny a b).perm
-  refine h.trans ?_
-  have h1 := (asaSplit_perm a b).append_right (appPart b)
-  refine h1.trans ?_
-  -- nonApp b ++ a ++ appPart b ~ a ++ b
-  have h2 : (nonApp b ++ a ++ appPart b).Perm (a ++ (nonApp b ++ appPart b)) := by
-    simp only [List.append_assoc]
-    exact (List.perm_append_comm_assoc (nonApp b) a (appPart b))
-  exact h2.trans (List.Perm.append_left a (nonApp_append_appPart_perm b))
+theorem asa_merge_perm (a b : List Entry) : (mergeASA a b).Perm (a ++ b) := mergeASA_perm a b
 
 theorem any6_notPermit (x : Entry) (h : x.isAny6 = true) : x.notPermit = true := by
   unfold Entry.isAny6 at h
@@ -169,13 +121,6 @@ theorem asa_old_partial (a b : List Entry)
 theorem ios_append_after_last_permit_before_trailing_deny (a b : List Entry) :
     Placed Entry.notPermit (nonApp b) a (appPart b) (mergeIOS a b) :=
   placed_insert _ _ _ _
-
-theorem perm_parts (a b r : List Entry) (h : r.Perm (nonApp b ++ a ++ appPart b)) : r.Perm (a ++ b) := by
-  refine h.trans ?_
-  have h2 : (nonApp b ++ a ++ appPart b).Perm (a ++ (nonApp b ++ appPart b)) := by
-    simp only [List.append_assoc]
-    exact (List.perm_append_comm_assoc (nonApp b) a (appPart b))
-  exact h2.trans (List.Perm.append_left a (nonApp_append_appPart_perm b))
 
 theorem ios_merge_perm (a b : List Entry) : (mergeIOS a b).Perm (a ++ b) :=
   perm_parts a b _ (ios_append_after_last_permit_before_trailing_deny a b).perm
@@ -320,6 +265,155 @@ theorem asa_pipeline_sublist (v4 v6 raw : List Entry) :
   have h2 := asa_merge_sublist (mergeASA v4 v6) raw
   exact ⟨h1.1.trans h2.1, h1.2.1.trans h2.1, h2.2.1, h2.2.2⟩
 
+/-! ## unmergeable_reported — the ACL-binding fragment of `mergeCmds` / `mergeRefs` (ASA and IOS)
+
+`mergeCisco dev .new a f` is the repaired merge of file `f` (raw or IPv6) into configuration `a`;
+`.error e` stands for the abort with a diagnostic, the second component of `.ok` for the
+"Ignoring unused …" warnings. -/
+
+/-- An unknown top-level command in a raw file is an error of the parser. -/
+theorem raw_unknown_command_reported (dev : Dev) (f : File) (hr : f.isRaw = true) (hu : f.unknownTop = true) :
+    f.parseErr dev = some .unknownCmd := by
+  simp [File.parseErr, hr, hu]
+
+/-- A binding that names an ACL the file does not define is an error of the parser. -/
+theorem unknown_reference_reported (f : File) (k : Anchor) (hk : k ∈ f.anchors) (hn : f.table.has k.acl = false) :
+    ∃ e, f.parseErr .asa = some e ∧ f.parseErr .ios = some e := by
+  unfold File.parseErr
+  by_cases h : (f.isRaw && f.unknownTop) = true
+  · exact ⟨.unknownCmd, by simp [h], by simp [h]⟩
+  · simp only [h]
+    cases hf : f.anchors.find? (fun k => !(f.table.has k.acl)) with
+    | some k' => exact ⟨_, rfl, rfl⟩
+    | none =>
+      have := List.find?_eq_none.mp hf k hk
+      simp [hn] at this
+
+/-- A parse error ends `loadSpoc` with that error. -/
+theorem loadSpoc_reports_raw_parse_error (dev : Dev) (g : Gen) (v4 v6 raw : File) (e : Err)
+    (h4 : v4.parseErr dev = none) (h6 : v6.parseErr dev = none) (hr : raw.parseErr dev = some e)
+    (c : Conf) (w : List Nat) (hm : mergeSpoc dev g (v4.toConf dev) v6 = .ok (c, w)) :
+    loadSpoc dev g v4 v6 raw = .error e := by
+  simp [loadSpoc, h4, h6, hr, hm, bind, Except.bind, throw, throwThe, MonadExceptOf.throw]
+
+/-- Doubly bound object: two bindings of a raw file name the same ACL ⇒ the merge ends in an error
+(name clash or "Must reference … only once in raw"). -/
+theorem cisco_bound_twice_reported (dev : Dev) (a : Conf) (f : File) (l1 l2 l3 : List Anchor) (k1 k2 : Anchor)
+    (hraw : f.isRaw = true) (hl : f.anchors = l1 ++ k1 :: (l2 ++ k2 :: l3)) (hk : k1.acl = k2.acl) :
+    ∃ e, mergeCisco dev .new a f = .error e := by
+  unfold mergeCisco
+  rw [hraw, hl]
+  obtain ⟨e, he⟩ := fold_err_of_dup dev a.anchors f.table l1 l2 l3 k1 k2 hk { conts := a.conts, anchors := a.anchors }
+  exact ⟨e, by rw [he]⟩
+
+/-- Code as found, F-C18e: a raw ACL bound at a place Netspoc also binds and then at a new place is
+merged twice without any message. -/
+theorem cisco_old_bound_twice_counterexample :
+    ∃ a f k1 k2, f.isRaw = true ∧ f.anchors = [k1, k2] ∧ k1.acl = k2.acl ∧
+      (mergeCisco .asa .old a f).toBool = true :=
+  ⟨{ conts := [(1, false, [⟨10, .permit, false⟩, ⟨11, .deny, false⟩])], anchors := [⟨0, 1⟩] },
+   { isRaw := true, conts := [{ name := 2, lines := [{ e := ⟨1, .permit, false⟩ }] }], anchors := [⟨0, 2⟩, ⟨3, 2⟩] },
+   ⟨0, 2⟩, ⟨3, 2⟩, by decide⟩
+
+/-- Name clash: a raw binding at a place unknown to Netspoc whose ACL name Netspoc already uses ⇒ error. -/
+theorem cisco_name_clash_reported (dev : Dev) (g : Gen) (a : Conf) (f : File) (k : Anchor) (rest : List Anchor)
+    (hraw : f.isRaw = true) (hl : f.anchors = k :: rest)
+    (hnew : a.anchors.find? (fun ka => ka.key == k.key) = none) (hclash : a.conts.has k.acl = true) :
+    mergeCisco dev g a f = .error (.nameClash k.acl) := by
+  unfold mergeCisco
+  rw [hraw, hl]
+  simp [foldExcept, ciscoStep, hnew, hclash]
+
+/-- Unbound object: a raw ACL that no binding of the raw file names is listed in the warnings. -/
+theorem cisco_unbound_raw_object_warned (dev : Dev) (g : Gen) (a : Conf) (f : File) (c : Conf) (w : List Nat)
+    (h : mergeCisco dev g a f = .ok (c, w)) (hraw : f.isRaw = true) (ct : Cont) (hct : ct ∈ f.conts)
+    (hun : ∀ k ∈ f.anchors, k.acl ≠ ct.name) : ct.name ∈ w := by
+  obtain ⟨st, hst, _, rfl⟩ := mergeCisco_ok dev g a f c w h
+  unfold unusedWarnings
+  simp only [hraw, if_true, List.mem_filter, List.mem_map]
+  refine ⟨?_, ?_⟩
+  · have hh := table_has f ct hct
+    unfold Table.has at hh
+    obtain ⟨x, hx, hx2⟩ := List.any_eq_true.mp hh
+    exact ⟨x, hx, by simpa using hx2⟩
+  · have : ct.name ∉ st.refd := by
+      intro hin
+      rcases fold_refd_subset dev g f.isRaw a.anchors f.table _ st f.anchors hst ct.name hin with h0 | ⟨k, hk, hk2⟩
+      · cases h0
+      · exact hun k hk hk2
+    simpa using this
+
+/-- **unmergeable_reported** (for the lines the parser knows): merging a raw file either ends in an
+error, or every ACL of the raw file is named in a warning, or it is bound and all its known lines are
+in the ACL that the result binds at the same place. -/
+theorem cisco_raw_lines_merged_or_reported (dev : Dev) (a : Conf) (f : File) (hraw : f.isRaw = true) :
+    (∃ e, mergeCisco dev .new a f = .error e) ∨
+    ∃ c w, mergeCisco dev .new a f = .ok (c, w) ∧ ∀ ct ∈ f.conts,
+      ct.name ∈ w ∨
+      ∃ k ∈ f.anchors, k.acl = ct.name ∧ ∃ k' ∈ c.anchors, k'.key = k.key ∧
+        ∀ l ∈ ct.lines, l.known = true → l.e ∈ linesOf c.conts k'.acl := by
+  cases h : mergeCisco dev .new a f with
+  | error e => exact Or.inl ⟨e, rfl⟩
+  | ok cw =>
+    obtain ⟨c, w⟩ := cw
+    right
+    refine ⟨c, w, rfl, fun ct hct => ?_⟩
+    by_cases hb : ∃ k ∈ f.anchors, k.acl = ct.name
+    · right
+      obtain ⟨k, hk, hka⟩ := hb
+      obtain ⟨st, hst, rfl, _⟩ := mergeCisco_ok dev .new a f c w h
+      rw [hraw] at hst
+      have hsafe := safeRun_of_raw dev .new a.anchors f.table _ st f.anchors hst
+      obtain ⟨k', hk', hkey, hl⟩ :=
+        fold_landed dev true a.anchors f.table _ st f.anchors (fun ka hka => hka) hst hsafe k hk
+      refine ⟨k, hk, hka, k', hk', hkey, fun l hl' hkn => hl _ ?_⟩
+      rw [hka]
+      exact table_lines f ct hct l hl' hkn
+    · left
+      refine cisco_unbound_raw_object_warned dev .new a f c w h hraw ct hct (fun k hk hka => hb ⟨k, hk, hka⟩)
+
+/-- F-C18f: an unknown sub-command inside a raw IOS ACL is dropped without error or warning. -/
+theorem cisco_unknown_subcommand_counterexample :
+    ∃ (a : Conf) (f : File) (ct : Cont) (l : SrcLine) (c : Conf),
+      f.isRaw = true ∧ ct ∈ f.conts ∧ l ∈ ct.lines ∧ l.known = false ∧ f.parseErr .ios = none ∧
+      mergeCisco .ios .new a f = .ok (c, []) ∧ ∀ x ∈ c.conts, l.e ∉ x.2.2 :=
+  ⟨{ conts := [(1, false, [⟨10, .permit, false⟩])], anchors := [⟨0, 1⟩] },
+   { isRaw := true, conts := [{ name := 2, lines := [{ e := ⟨1, .permit, false⟩ }, { e := ⟨2, .permit, false⟩, known := false }] }],
+     anchors := [⟨0, 2⟩] },
+   { name := 2, lines := [{ e := ⟨1, .permit, false⟩ }, { e := ⟨2, .permit, false⟩, known := false }] },
+   { e := ⟨2, .permit, false⟩, known := false },
+   { conts := [(1, false, [⟨1, .permit, false⟩, ⟨10, .permit, false⟩])], anchors := [⟨0, 1⟩] },
+   by decide⟩
+
+/-- A raw merge never loses a line or a binding of the configuration merged so far. -/
+theorem cisco_netspoc_lines_kept (dev : Dev) (a : Conf) (f : File) (c : Conf) (w : List Nat) (hraw : f.isRaw = true)
+    (h : mergeCisco dev .new a f = .ok (c, w)) :
+    (∀ n e, e ∈ linesOf a.conts n → e ∈ linesOf c.conts n) ∧ (∀ k ∈ a.anchors, k ∈ c.anchors) := by
+  obtain ⟨st, hst, rfl, _⟩ := mergeCisco_ok dev .new a f c w h
+  rw [hraw] at hst
+  exact fold_grow dev true a.anchors f.table _ st f.anchors hst (safeRun_of_raw dev .new a.anchors f.table _ st f.anchors hst)
+
+/-- The same for an IPv6 file, if no new binding of it reuses the name of an existing ACL
+(`safeRun`, decidable; its failure is F-C18g); then also all lines of the IPv6 file are merged. -/
+theorem cisco_netspoc_lines_kept_partial (dev : Dev) (a : Conf) (f : File) (c : Conf) (w : List Nat)
+    (hsafe : safeRun dev .new f.isRaw a.anchors f.table { conts := a.conts, anchors := a.anchors } f.anchors = true)
+    (h : mergeCisco dev .new a f = .ok (c, w)) :
+    (∀ n e, e ∈ linesOf a.conts n → e ∈ linesOf c.conts n) ∧ (∀ k ∈ a.anchors, k ∈ c.anchors) ∧
+    ∀ k ∈ f.anchors, ∃ k' ∈ c.anchors, k'.key = k.key ∧ ∀ e ∈ linesOf f.table k.acl, e ∈ linesOf c.conts k'.acl := by
+  obtain ⟨st, hst, rfl, _⟩ := mergeCisco_ok dev .new a f c w h
+  have hg := fold_grow dev f.isRaw a.anchors f.table _ st f.anchors hst hsafe
+  exact ⟨hg.1, hg.2, fold_landed dev f.isRaw a.anchors f.table _ st f.anchors (fun ka hka => hka) hst hsafe⟩
+
+/-- F-C18g: an IPv6 file that binds, at a place the IPv4 file does not bind, an ACL whose name the
+IPv4 file uses: the IPv4 lines are gone, no message. -/
+theorem cisco_v6_shared_name_counterexample :
+    ∃ (a : Conf) (f : File) (c : Conf) (e : Entry),
+      f.isRaw = false ∧ mergeCisco .asa .new a f = .ok (c, []) ∧ e ∈ linesOf a.conts 1 ∧ e ∉ linesOf c.conts 1 :=
+  ⟨{ conts := [(1, false, [⟨1, .permit, false⟩, ⟨2, .deny, false⟩])], anchors := [⟨0, 1⟩] },
+   { conts := [{ name := 1, lines := [{ e := ⟨3, .permit, false⟩ }, { e := ⟨4, .any6, false⟩ }] }], anchors := [⟨3, 1⟩] },
+   { conts := [(1, false, [⟨3, .permit, false⟩, ⟨4, .any6, false⟩])], anchors := [⟨0, 1⟩, ⟨3, 1⟩] },
+   ⟨1, .permit, false⟩, by decide⟩
+
 /-! Non-vacuity: the hypotheses of the conditional theorems are satisfiable. -/
 example : (asaSplit [⟨10, .permit, false⟩] [⟨1, .deny, false⟩, ⟨2, .deny, true⟩]).1
     = nonApp [⟨1, .deny, false⟩, ⟨2, .deny, true⟩] := by decide
@@ -337,6 +431,10 @@ def obligations : List Lean.Name := [
   ``linux_old_prepend_reversed_counterexample, ``linux_old_append_reordered_counterexample, ``linux_old_partial,
   ``pan_merge_perm, ``pan_merge_sublist, ``pan_raw_first, ``pan_append_after_all_netspoc_entries, ``pan_raw_whole_order,
   ``nsx_merge_perm, ``nsx_merge_sublist, ``nsx_append_after_all_netspoc_entries,
-  ``asa_pipeline_perm, ``asa_pipeline_sublist]
+  ``asa_pipeline_perm, ``asa_pipeline_sublist,
+  ``raw_unknown_command_reported, ``unknown_reference_reported, ``loadSpoc_reports_raw_parse_error,
+  ``cisco_bound_twice_reported, ``cisco_old_bound_twice_counterexample, ``cisco_name_clash_reported,
+  ``cisco_unbound_raw_object_warned, ``cisco_raw_lines_merged_or_reported, ``cisco_unknown_subcommand_counterexample,
+  ``cisco_netspoc_lines_kept, ``cisco_netspoc_lines_kept_partial, ``cisco_v6_shared_name_counterexample]
 
 end NA.C18
